@@ -147,10 +147,11 @@ def run(tier="quick", only_key=None):
             if as_poly(n_len) != T_ - sub + 1:
                 ok, why = False, f"{n_len} windows instead of T - sub_len + 1"
                 break
-            if not (isinstance(win, Term) and win.op == "dynamic_slice_in_dim"):
-                ok, why = False, f"window is not a dynamic_slice_in_dim: {win}"
+            w4 = _as_window(win)
+            if w4 is None:
+                ok, why = False, f"window is not rows [i, i+sub_len) of the time axis (dynamic_slice_in_dim / dynamic_slice / roll(-i, axis=0)[:sub_len]): {str(win)[:200]}"
                 break
-            operand, start, size, axis = win.args
+            operand, start, size, axis = w4
             st = start.data[0] if isinstance(start, Tens) else as_poly(start)
             if operand != trj or st != Poly.atom(bound) or as_poly(size) != sub or axis != 0:
                 ok, why = False, f"window = dynamic_slice(trj, start={st}, size={size}, axis={axis}); expected start=i, size=sub_len, axis=0"
@@ -252,6 +253,38 @@ def run(tier="quick", only_key=None):
         rule_text="rule instances = (utility, flag row, state structure) ; each instance covers n in 0..3",
         trusted=["CPython ast", "left-fold semantics of jax.lax.scan", "jax.tree_util.tree_map structure semantics"],
     )
+
+
+def _as_window(win):
+    """(operand, start, size, axis) if the structure denotes `size` consecutive rows of `operand` along `axis` starting at
+    `start` - in any of the spellings jax offers"""
+    if not isinstance(win, Term):
+        return None
+    if win.op == "dynamic_slice_in_dim":
+        return tuple(win.args)
+    if win.op == "dynamic_slice":
+        operand, starts, sizes = win.args
+        if not isinstance(operand, Tens) or len(starts) != operand.ndim or len(sizes) != operand.ndim:
+            return None
+        moving = [i for i, s_ in enumerate(starts) if not (isinstance(s_, int) and s_ == 0) and not (isinstance(s_, Poly) and s_.is_zero())]
+        if len(moving) != 1:
+            return None
+        ax = moving[0]
+        if any(i != ax and as_poly(sizes[i]) != as_poly(operand.shape[i]) for i in range(operand.ndim)):
+            return None
+        return (operand, starts[ax], sizes[ax], ax)
+    if win.op == "getitem":
+        src, idx = win.args
+        if isinstance(src, Term) and src.op == "roll":
+            operand, shift, axis = src.args
+            sl = idx
+            if isinstance(sl, tuple) and len(sl) == 1 and not (sl and sl[0] == "slice"):
+                sl = sl[0]
+            if isinstance(sl, slice):
+                sl = ("slice", sl.start, sl.stop, sl.step)
+            if isinstance(sl, tuple) and len(sl) == 4 and sl[0] == "slice" and sl[1] is None and sl[3] is None and sl[2] is not None and axis is not None:
+                return (operand, -as_poly(shift), sl[2], axis)
+    return None
 
 
 def _pytree_rollout(it, rollout, ns, takes_aux, constant_aux, include_init):
